@@ -73,6 +73,8 @@ impl Previewer {
                 hscroll_offset_clone.store(max(1, max(hscroll, hoffset) - hoffset), Ordering::SeqCst);
                 vscroll_offset_clone.store(max(1, max(vscroll, voffset) - voffset), Ordering::SeqCst);
                 *content_clone.lock() = lines;
+                #[cfg(feature = "verif")]
+                verif_log_content(&content_clone.lock(), &vscroll_offset_clone);
 
                 callback();
             })
@@ -236,6 +238,8 @@ impl Previewer {
             None => PreviewEvent::Noop,
         };
 
+        #[cfg(feature = "verif")]
+        crate::verif::sched::point("pv.send");
         let _ = self.tx_preview.send(preview_event);
     }
 
@@ -248,7 +252,11 @@ impl Previewer {
         };
 
         let new_offset = min(new_offset, max(self.content_lines.lock().len(), 1) - 1);
+        #[cfg(feature = "verif")]
+        crate::verif::sched::point("pv.scroll.store");
         self.vscroll_offset.store(max(new_offset, 1), Ordering::SeqCst);
+        #[cfg(feature = "verif")]
+        crate::verif::sched::log(format!("pv.scroll:{}", max(new_offset, 1)));
     }
 
     fn act_scroll_right(&mut self, diff: i32) {
@@ -312,6 +320,52 @@ impl Previewer {
             v_offset,
         }
     }
+}
+
+#[cfg(feature = "verif")]
+impl Previewer {
+    /// the preview lines currently held (ANSI stripped)
+    pub fn verif_content(&self) -> Vec<String> {
+        self.content_lines.lock().iter().map(|l| l.stripped().to_string()).collect()
+    }
+
+    /// (vertical, horizontal) scroll offsets, 1-based as stored
+    pub fn verif_scroll(&self) -> (usize, usize) {
+        (
+            self.vscroll_offset.load(Ordering::SeqCst),
+            self.hscroll_offset.load(Ordering::SeqCst),
+        )
+    }
+}
+
+/// trace label for a content write: first line (code points), number of lines, vertical offset;
+/// read back while the caller holds the content lock so that the trace order is the order of the writes
+#[cfg(feature = "verif")]
+fn verif_log_content(guard: &[AnsiString<'static>], vscroll: &AtomicUsize) {
+    let first: Vec<String> = guard
+        .first()
+        .map(|l| l.stripped().chars().map(|c| (c as u32).to_string()).collect())
+        .unwrap_or_default();
+    crate::verif::sched::log(format!(
+        "pv.content:{}:{}:{}",
+        if first.is_empty() { "-".to_string() } else { first.join(".") },
+        guard.len(),
+        vscroll.load(Ordering::SeqCst)
+    ));
+}
+
+/// trace label for the result of `wait_with_output`: `ok`, `err` (non-zero exit), `sig`, `fail`
+#[cfg(feature = "verif")]
+fn verif_log_status(output: &std::io::Result<std::process::Output>) {
+    let st = match output {
+        Err(_) => "fail",
+        Ok(o) => match o.status.code() {
+            None => "sig",
+            Some(0) => "ok",
+            Some(_) => "err",
+        },
+    };
+    crate::verif::sched::point(&format!("pv.reaped:{}", st));
 }
 
 impl Drop for Previewer {
@@ -420,10 +474,18 @@ struct PreviewThread {
 
 impl PreviewThread {
     fn kill(self) {
+        #[cfg(feature = "verif")]
+        crate::verif::sched::point("pv.kill");
         if !self.stopped.load(Ordering::Relaxed) {
+            #[cfg(feature = "verif")]
+            crate::verif::sched::point("pv.sig");
             unsafe { libc::kill(self.pid as i32, libc::SIGKILL) };
         }
+        #[cfg(feature = "verif")]
+        crate::verif::sched::log(format!("pv.killed:{}", self.stopped.load(Ordering::Relaxed)));
         self.thread.join().expect("Failed to join Preview process");
+        #[cfg(feature = "verif")]
+        crate::verif::sched::point("pv.joined");
     }
 }
 
@@ -433,7 +495,11 @@ where
 {
     let callback = Arc::new(on_return);
     let mut preview_thread: Option<PreviewThread> = None;
+    #[cfg(feature = "verif")]
+    crate::verif::sched::point("pv.idle");
     while let Ok(_event) = rx_preview.recv() {
+        #[cfg(feature = "verif")]
+        crate::verif::sched::point("pv.recv");
         if preview_thread.is_some() {
             preview_thread.unwrap().kill();
             preview_thread = None;
@@ -446,16 +512,22 @@ where
 
         // Try to empty the channel. Happens when spamming up/down or typing fast.
         while let Ok(_event) = rx_preview.try_recv() {
+            #[cfg(feature = "verif")]
+            crate::verif::sched::point("pv.tryrecv");
             event = match _event {
                 PreviewEvent::Abort => return,
                 _ => _event,
             }
         }
 
+        #[cfg(feature = "verif")]
+        crate::verif::sched::point("pv.dispatch");
         match event {
             PreviewEvent::PreviewCommand(preview_cmd, pos) => {
                 let cmd = &preview_cmd.cmd;
                 if cmd.is_empty() {
+                    #[cfg(feature = "verif")]
+                    crate::verif::sched::point("pv.idle");
                     continue;
                 }
 
@@ -476,12 +548,16 @@ where
                         preview_thread = None;
                     }
                     Ok(spawned) => {
+                        #[cfg(feature = "verif")]
+                        crate::verif::sched::point("pv.spawned");
                         let pid = spawned.id();
                         let stopped = Arc::new(AtomicBool::new(false));
                         let stopped_clone = stopped.clone();
                         let callback_clone = callback.clone();
                         let thread = thread::spawn(move || {
                             wait(spawned, move |lines| {
+                                #[cfg(feature = "verif")]
+                                crate::verif::sched::point("pv.stopping");
                                 stopped_clone.store(true, Ordering::SeqCst);
                                 callback_clone(lines, pos);
                             })
@@ -501,6 +577,8 @@ where
             PreviewEvent::Noop => {}
             PreviewEvent::Abort => return,
         };
+        #[cfg(feature = "verif")]
+        crate::verif::sched::point("pv.idle");
     }
 }
 
@@ -509,8 +587,12 @@ where
     C: Fn(Vec<AnsiString<'static>>),
 {
     let output = spawned.wait_with_output();
+    #[cfg(feature = "verif")]
+    verif_log_status(&output);
 
     if output.is_err() {
+        #[cfg(feature = "verif")]
+        crate::verif::sched::point("pv.wexit");
         return;
     }
 
@@ -519,6 +601,8 @@ where
     if output.status.code().is_none() {
         // On Unix it means the process is terminated by a signal
         // directly return to avoid flickering
+        #[cfg(feature = "verif")]
+        crate::verif::sched::point("pv.wexit");
         return;
     }
 
@@ -531,6 +615,8 @@ where
 
     let lines = out_str.lines().map(AnsiString::parse).collect();
     callback(lines);
+    #[cfg(feature = "verif")]
+    crate::verif::sched::point("pv.wexit");
 }
 
 #[derive(Builder, Default, Debug)]
